@@ -111,7 +111,11 @@ fn make_obj_inner(o: &Value, kind: &str) -> Obj {
         "gauge" => Obj::Gauge(Gauge::new("g", "h").unwrap()),
         "intgauge" => Obj::IntGauge(IntGauge::new("g", "h").unwrap()),
         "histogram" => {
-            let bounds: Vec<f64> = o["bounds"].as_array().unwrap().iter().map(|x| x.as_f64().unwrap() - shift()).collect();
+            let mut bounds: Vec<f64> = o["bounds"].as_array().unwrap().iter().map(|x| x.as_f64().unwrap() - shift()).collect();
+            if bounds.is_empty() {
+                // a count-and-sum-only histogram: no finite bucket at all (an empty list would mean "the default buckets")
+                bounds.push(f64::INFINITY);
+            }
             let via = o.get("via").and_then(|x| x.as_str()).unwrap_or("direct").to_owned();
             let opts = HistogramOpts::new("h", "h").buckets(bounds);
             match via.as_str() {
@@ -459,7 +463,7 @@ fn project(obj: &Obj, s: &Sched, names: &[String], keys: &[String]) -> Value {
         Obj::CVec(v) => {
             let l = s.lock_state(v.verif_lock_addr());
             let mut o = json!({"lock": lock_json(&l, names)});
-            if l.writer.is_none() {
+            if l.writer.is_none() && l.readers.is_empty() {
                 o["children"] = children_json(v.collect(), keys);
             }
             o
@@ -467,7 +471,7 @@ fn project(obj: &Obj, s: &Sched, names: &[String], keys: &[String]) -> Value {
         Obj::ICVec(v) => {
             let l = s.lock_state(v.verif_lock_addr());
             let mut o = json!({"lock": lock_json(&l, names)});
-            if l.writer.is_none() {
+            if l.writer.is_none() && l.readers.is_empty() {
                 o["children"] = children_json(v.collect(), keys);
             }
             o
@@ -484,7 +488,7 @@ fn project(obj: &Obj, s: &Sched, names: &[String], keys: &[String]) -> Value {
                 cv.insert(c.cid.clone(), json!(c.c.get()));
             }
             o["cval"] = Value::Object(cv);
-            if l.writer.is_none() {
+            if l.writer.is_none() && l.readers.is_empty() {
                 let shown: Vec<String> = reg_gather(r, cols).as_array().unwrap().iter().map(|p| p[0].as_str().unwrap().to_owned()).collect();
                 let mut reg = Map::new();
                 for c in cols {
@@ -518,15 +522,37 @@ pub fn run_file(input: &str, output: &str, want_ops: bool) {
     let scen: Value = serde_json::from_str(&lines.next().unwrap().unwrap()).unwrap();
     let names: Vec<String> = scen["threads"].as_array().unwrap().iter().map(|x| x.as_str().unwrap().to_owned()).collect();
     let budget = scen.get("budget").and_then(|x| x.as_u64()).unwrap_or(5000) as usize;
-    let mut w = std::io::BufWriter::new(std::fs::File::create(output).expect("output"));
+    let w = Arc::new(Mutex::new(std::io::BufWriter::new(std::fs::File::create(output).expect("output"))));
+    // watchdog: a schedule under which a thread (or the controller's projection) blocks on something the scheduler does not
+    // control cannot be driven any further; it is recorded as "stuck" (no verdict), and the driver re-runs the jobs after it
+    let cur: Arc<Mutex<Option<(Value, std::time::Instant)>>> = Arc::new(Mutex::new(None));
+    let limit: u64 = std::env::var("VH_STUCK_SECS").ok().and_then(|x| x.parse().ok()).unwrap_or(60);
+    {
+        let (cur, w) = (cur.clone(), w.clone());
+        std::thread::spawn(move || loop {
+            std::thread::sleep(std::time::Duration::from_millis(500));
+            let c = cur.lock().unwrap();
+            if let Some((id, t0)) = &*c {
+                if t0.elapsed().as_secs() >= limit {
+                    let mut w = w.lock().unwrap();
+                    writeln!(w, "{}", json!({"id": id, "stuck": true})).unwrap();
+                    w.flush().unwrap();
+                    std::process::exit(4);
+                }
+            }
+        });
+    }
     for line in lines {
         let line = line.unwrap();
         if line.trim().is_empty() {
             continue;
         }
         let job: Value = serde_json::from_str(&line).unwrap();
+        *cur.lock().unwrap() = Some((job["id"].clone(), std::time::Instant::now()));
         let r = run_job(&scen, &names, &job, budget, want_ops);
+        *cur.lock().unwrap() = None;
         let nonterm = r.out.get("nonterm").and_then(|x| x.as_bool()).unwrap_or(false);
+        let mut w = w.lock().unwrap();
         writeln!(w, "{}", Value::Object(r.out)).unwrap();
         if nonterm {
             // parked threads cannot be joined: flush and leave
@@ -534,7 +560,7 @@ pub fn run_file(input: &str, output: &str, want_ops: bool) {
             std::process::exit(3);
         }
     }
-    w.flush().unwrap();
+    w.lock().unwrap().flush().unwrap();
 }
 
 fn run_job(scen: &Value, names: &[String], job: &Value, budget: usize, want_ops: bool) -> Run {
